@@ -233,12 +233,15 @@ pub fn native_sorted<T>(
                         let key = vm.run_function(key_fn)?;
                         result.push((key, k, v));
                     }
-                    // the sort needs a total order: keys that compare with nothing (NaN) go last,
-                    // other incomparable keys count as equal and keep their order
+                    // the sort needs a total order. Wherever `partial_cmp` answers, it orders by the
+                    // numeric value (nil counts as 0, an object as its length); the pairs it leaves
+                    // open (nil against an object, different objects of the same length) are
+                    // decided by the same numbers and keys that compare with nothing (NaN) go last
                     let is_nan = |v: &Value| matches!(v, Value::Real(x) if x.is_nan());
+                    let rank = |v: &Value| (is_nan(v), i64::try_from(*v).unwrap_or(0));
                     result.sort_by(|(a, _, _), (b, _, _)| {
                         a.partial_cmp(b)
-                            .unwrap_or_else(|| is_nan(a).cmp(&is_nan(b)))
+                            .unwrap_or_else(|| rank(a).cmp(&rank(b)))
                     });
 
                     let mut out = vm.init_table()?;
